@@ -450,7 +450,9 @@ VAL_POOL = [
     ("tuple", [("iter", [b"it"]), ("str", "a/b"), ("none",), ("int", 206)]),
 ] + [("resp", r) for r in RESP_POOL]
 ABORT_CODES = [0, 200, 204, 304, 400, 401, 403, 404, 405, 416, 418, 500, 501,
-               503]
+               503,
+               # codes the reason-phrase table does not know
+               420, 599]
 
 
 def rand_beh(rng, hook=None):
